@@ -370,5 +370,28 @@ func fixedHarmless() []mutant {
 		{Harmless: true, ID: "h-r11-C17-fixed", Patch: "seeded/C17k-feat-lone-segment-copy-shadowed-err/fixed.diff"},
 		{Harmless: true, ID: "h-r11-C18-fixed", Patch: "seeded/C18k-feat-lone-segment-copy-before-poll/fixed.diff"},
 		{Harmless: true, ID: "h-r11-C20-fixed", Patch: "seeded/C20k-fix-idempotent-close-flag/fixed.diff"},
+		// the repaired forms of the round-14 seeds (C04ma, C11mc: unresolved alarms — not fixtures)
+		{Harmless: true, ID: "h-r14-C04mb-fixed", Patch: "seeded/C04mb-feat-counting-writer-reset-keeps-crc/fixed.diff"},
+		{Harmless: true, ID: "h-r14-C07ma-fixed", Patch: "seeded/C07ma-feat-decoder-header-memo-offset-only/fixed.diff"},
+		{Harmless: true, ID: "h-r14-C10ma-fixed", Patch: "seeded/C10ma-feat-docvalue-coder-recycled-grow-only/fixed.diff"},
+		{Harmless: true, ID: "h-r14-C10mb-fixed", Patch: "seeded/C10mb-feat-reset-installs-empty-opaque-map/fixed.diff"},
+		{Harmless: true, ID: "h-r14-C11ma-fixed", Patch: "seeded/C11ma-feat-stored-doc-memo-buffer-recycled/fixed.diff"},
+		{Harmless: true, ID: "h-r14-C11mb-fixed", Patch: "seeded/C11mb-feat-late-field-returns-shared-reader/fixed.diff"},
+		{Harmless: true, ID: "h-r14-C12ma-fixed", Patch: "seeded/C12ma-feat-synonyms-memo-offset-only/fixed.diff"},
+		{Harmless: true, ID: "h-r14-C16ma-fixed", Patch: "seeded/C16ma-feat-all-excluded-early-return/fixed.diff"},
+		{Harmless: true, ID: "h-r14-C16ma-fixed-vectors", Patch: "seeded/C16ma-feat-all-excluded-early-return/fixed.diff", Vectors: true},
+		{Harmless: true, ID: "h-r14-C16mb-fixed", Patch: "seeded/C16mb-feat-exclusion-memo-aliases-argument/fixed.diff"},
+		{Harmless: true, ID: "h-r14-C16mb-fixed-vectors", Patch: "seeded/C16mb-feat-exclusion-memo-aliases-argument/fixed.diff", Vectors: true},
+		{Harmless: true, ID: "h-r14-C17ma-fixed", Patch: "seeded/C17ma-feat-preallocate-early-return/fixed.diff"},
+		{Harmless: true, ID: "h-r14-C17mb-fixed", Patch: "seeded/C17mb-fix-defer-cleanup-shadowed-tail/fixed.diff"},
+		{Harmless: true, ID: "h-r14-C17mc-fixed", Patch: "seeded/C17mc-feat-flush-destination-first/fixed.diff"},
+		{Harmless: true, ID: "h-r14-C18ma-fixed", Patch: "seeded/C18ma-feat-no-docs-fastpath-above-poll/fixed.diff"},
+		{Harmless: true, ID: "h-r14-C18mb-fixed", Patch: "seeded/C18mb-feat-extra-polls-one-without-cleanup/fixed.diff"},
+		{Harmless: true, ID: "h-r14-C19ma-fixed", Patch: "seeded/C19ma-feat-batched-reconstruct-shadowed-err/fixed.diff"},
+		{Harmless: true, ID: "h-r14-C19ma-fixed-vectors", Patch: "seeded/C19ma-feat-batched-reconstruct-shadowed-err/fixed.diff", Vectors: true},
+		{Harmless: true, ID: "h-r14-C19mb-fixed", Patch: "seeded/C19mb-feat-release-after-reconstruct-leak/fixed.diff"},
+		{Harmless: true, ID: "h-r14-C19mb-fixed-vectors", Patch: "seeded/C19mb-feat-release-after-reconstruct-leak/fixed.diff", Vectors: true},
+		{Harmless: true, ID: "h-r14-C20ma-fixed", Patch: "seeded/C20ma-feat-pin-rollback-unpins-all/fixed.diff"},
+		{Harmless: true, ID: "h-r14-C20mb-fixed", Patch: "seeded/C20mb-feat-trim-caches-on-close/fixed.diff"},
 	}
 }
